@@ -203,5 +203,55 @@ theorem reach_drop (S : List Step) (x : Nat) (s : Step) (h : S[x]? = some s)
     simp only [convAxis]
     rw [reach_desc ns xvs s _ hs hax]; simp
 
+/-! ## `descendant::t` and `descendant-or-self::node()/child::t` -/
+
+def kidsAt (ks : List Node) (loc : List Nat) (i : Nat) : List LNode :=
+  (ks.zipIdx i).map fun (k, j) => (⟨loc ++ [j], k⟩ : LNode)
+
+mutual
+  theorem descOf_any (f : LNode → Bool) : ∀ (n : Node) (loc : List Nat),
+      (descOf n loc).any f
+        = ((childrenOf ⟨loc, n⟩).any f || (descOf n loc).any fun m => (childrenOf m).any f)
+    | .elem _ _ ks, loc => by
+        simp only [descOf, childrenOf]
+        exact descList_any f ks loc 0
+    | .leaf _, _ => by simp [descOf, childrenOf]
+  theorem descList_any (f : LNode → Bool) : ∀ (ks : List Node) (loc : List Nat) (i : Nat),
+      (descList ks loc i).any f
+        = ((kidsAt ks loc i).any f || (descList ks loc i).any fun m => (childrenOf m).any f)
+    | [], _, _ => by simp [descList, kidsAt]
+    | k :: ks, loc, i => by
+        have h1 := descOf_any f k (loc ++ [i])
+        have h2 := descList_any f ks loc (i + 1)
+        simp only [descList, kidsAt, List.zipIdx_cons, List.map_cons, List.any_cons, List.any_append] at *
+        rw [h1, h2]
+        generalize f ⟨loc ++ [i], k⟩ = A
+        generalize (childrenOf ⟨loc ++ [i], k⟩).any f = B
+        generalize ((descOf k (loc ++ [i])).any fun m => (childrenOf m).any f) = C
+        generalize ((List.map (fun x => (⟨loc ++ [x.2], x.1⟩ : LNode)) (ks.zipIdx (i + 1))).any f) = D
+        generalize ((descList ks loc (i + 1)).any fun m => (childrenOf m).any f) = E
+        cases A <;> cases B <;> cases C <;> cases D <;> cases E <;> rfl
+end
+
+/-- XPath's abbreviation `//`: with a step that has no position test,
+    `descendant-or-self::node()/child::t[…]` selects what `descendant::t[…]` selects -/
+theorem reach_dslash (s : Step) (rest : LocPath) (hs : NonPositional ns xvs s) (hax : s.axis = .child)
+    (c t : LNode) :
+    reach ns xvs (⟨.descendantOrSelf, .node, []⟩ :: s :: rest) c t
+      = reach ns xvs (withAxis .descendant s :: rest) c t := by
+  rw [reach_cons ns xvs _ _ (by intro q hq; simp at hq), reach_cons ns xvs _ rest (nonpos_withAxis ns xvs _ s hs)]
+  simp only [axisNodes, withAxis, List.any_cons]
+  have hn : ∀ m : LNode, hitR ns xvs ⟨.descendantOrSelf, .node, []⟩ m = true := by
+    intro m; simp [hitR, testNode]
+  simp only [hn, Bool.true_and]
+  have hstep : ∀ m : LNode, reach ns xvs (s :: rest) m t
+      = (childrenOf m).any fun k => hitR ns xvs s k && reach ns xvs rest k t := by
+    intro m
+    rw [reach_cons ns xvs s rest hs, hax]; rfl
+  simp only [hstep]
+  have := descOf_any (fun k => hitR ns xvs s k && reach ns xvs rest k t) c.node c.loc
+  simp only [descendants]
+  exact this.symm
+
 end
 end Genshi.Path
